@@ -178,13 +178,21 @@ class Ctx:
             seen_known.add(k["key"])
             print("KNOWN-FINDING: property=%s %s [%s] %s" % (self.prop, k["id"], k["key"], k["what"]))
         out_viol = 0
+        uniq = {}
+        for v in viol:
+            if v["key"] in uniq:
+                uniq[v["key"]]["occurrences"] += 1
+            else:
+                v["occurrences"] = 1
+                uniq[v["key"]] = v
+        viol = list(uniq.values())
         for i, v in enumerate(viol):
             out_viol += 1
             rp = os.path.join(REPLAY, "%s-%s-%d.json" % (self.prop, v["rule"], i))
             with open(rp, "w") as fh:
                 json.dump(v, fh, indent=1, default=str)
             print("VIOLATION property=%s replay=%s" % (self.prop, rp))
-            print("  rule %s  key %s" % (v["rule"], v["key"]))
+            print("  rule %s  key %s%s" % (v["rule"], v["key"], ("  (x%d)" % v["occurrences"]) if v["occurrences"] > 1 else ""))
             print("  at %s: %s" % (v["where"], v["reason"]))
             if v.get("path"):
                 print("  path: %s" % _clip(v["path"], 1200))
